@@ -74,6 +74,8 @@ def replay_history(case):
     from dataflows import Flow, checkpoint
     setup_repo()
     K, hist = case['k'], case['hist']
+    # checkpoint names are arbitrary valid names: half of the histories use names that contain the temporary-file suffix itself
+    CP = 'cp%d' if len(hist) % 2 else 'cp.active%d'
     if not any(h[0] == 'run' for h in hist):
         return dict(ok=True, trivial=True)
     root = tempfile.mkdtemp(prefix='c07-', dir=tlc.WORK_ROOT)
@@ -102,7 +104,7 @@ def replay_history(case):
                     yield dict(a=i, b='s%d' % i)
             links = [src() if fail_in != 0 else failing_src()]
             for j in range(1, K + 1):
-                links.append(checkpoint('cp%d' % j, checkpoint_path=root))
+                links.append(checkpoint(CP % j, checkpoint_path=root))
                 links.append(seg(j))
             if fail_in is not None:
                 import gc
@@ -123,7 +125,7 @@ def replay_history(case):
         ri = 0
         for h in hist:
             if h[0] == 'del':
-                shutil.rmtree(os.path.join(root, 'cp%d' % h[1]))
+                shutil.rmtree(os.path.join(root, CP % h[1]))
                 continue
             if h[0] == 'fail':
                 why, _ = run_once(fail_in=h[1])
@@ -139,7 +141,7 @@ def replay_history(case):
             if executed != want:
                 return dict(ok=False, why='run %d executed segments %s, the model says %s' % (ri + 1, executed, want))
             ri += 1
-        exists = [os.path.exists(os.path.join(root, 'cp%d' % j, 'stream.ndjson')) for j in range(1, K + 1)]
+        exists = [os.path.exists(os.path.join(root, CP % j, 'stream.ndjson')) for j in range(1, K + 1)]
         if exists != case['exists']:
             return dict(ok=False, why='checkpoint files after the history: %s, model: %s' % (exists, case['exists']))
         return dict(ok=True)
